@@ -5,12 +5,18 @@ import numpy as np
 ID = "C24"
 LEAN_MODULES = ["MjwVerif.Props.C24"]
 GEN_FUNCS = ["solver._eval_constraint", "solver._eval_elliptic_middle", "solver._eval_frictionloss_cost", "solver._eval_frictionloss_pt", "solver._state_check",
-             "solver._active_check", "math.safe_div_F_F"]
+             "solver._active_check", "math.safe_div_F_F", "solver._update_constraint_efc__kernel"]
+KERNELS = ["solver._update_constraint_efc__kernel"]
 LEVEL_TEXT = ("Theorems over the reals about the row force law `_eval_constraint` (and helpers) regenerated from solver.py on every run: equality rows f=-D*jaref; friction-loss rows "
               "|f|<=frictionloss with equality exactly in the linear states (incl. the D=0 safe_div case); limit/pyramidal rows f>=0 and satisfied <=> jaref>=0 => f=0; elliptic rows: "
               "top zone 0, bottom zone quadratic, middle zone on the cone boundary (sum (F_j/fr_j)^2 = F_0^2, F_0>0), all zones inside the cone; f = -d cost/d jaref (HasDerivAt, incl. branch "
-              "boundaries), cost>=0, satisfied => zero force. That the kernels assemble qfrc_constraint = J^T f and feed the row function with the right arguments is sampled on the real forward().")
-LEVEL_NOTE = "Trusted: Lean kernel + Mathlib, tier-A translator (func-level differential each run); kernel-level assembly (J^T f, elliptic argument wiring) sampled, float round-off not modelled."
+              "boundaries), cost>=0, satisfied => zero force. Kernel level (generic scalar type, all inputs): a thread of `_update_constraint_efc` (tracking on) that writes a row state different from "
+              "the stored one increments state_changed_count, i.e. the Newton/pyramidal stable-state fast path is never taken by a world in which some row changed the branch of its force law "
+              "(incl. friction LINEARNEG<->LINEARPOS, which leaves the quadratic flag alone). That the kernels assemble qfrc_constraint = J^T f and feed the row function with the right arguments is sampled on the real forward()/step(): "
+              "random trees (dense and sparse J), and warm-started solves that stop on a small iteration budget while friction-loss rows move between their two linear regimes "
+              "(the Newton/pyramidal tracked-state fast path recovers qfrc_constraint from a scaled stale gradient there), checked after every published solve.")
+LEVEL_NOTE = ("Trusted: Lean kernel + Mathlib, tier-A translator (func-level differential each run), tier-B translation of _update_constraint_efc (launch interception with serial replay of the "
+             "slot allocations, thorough tier only: two Lean-driver passes are too slow for the quick tier); launch-level sum of the atomic increments and the recovery identity are not proved; kernel-level assembly (J^T f incl. its recovery from the gradient on the incremental path, state-change bookkeeping, elliptic argument wiring) sampled, float round-off not modelled.")
 ASSUMPTIONS = ["D>0, mu>0, frictionloss>=0 as produced by constraint.py/collision_core (MJ_MINMU floor)", "D=0 discontinuity documented in Props/C24Witness.lean (not reachable: D = 1/R, R>0)"]
 
 
@@ -24,9 +30,9 @@ def _oracle(ctx, ncases):
   for c in range(ncases):
     cone = "elliptic" if rng.random() < 0.5 else "pyramidal"
     solver = "Newton" if rng.random() < 0.7 else "CG"
-    extra = ""
+    jac = ("dense", "sparse", "auto")[c % 3]
     xml, sp = models.random_model_xml(rng, nbody=int(rng.integers(2, 5)), joint_types=("free", "hinge", "slide", "ball"),
-                                      geom_types=["sphere", "capsule", "box"], option=f'cone="{cone}" solver="{solver}" iterations="50" tolerance="1e-10"', spread=0.25)
+                                      geom_types=["sphere", "capsule", "box"], option=f'cone="{cone}" solver="{solver}" jacobian="{jac}" iterations="50" tolerance="1e-10"', spread=0.25)
     # anisotropic sliding friction exists only for explicit pairs: floor against some of the geoms, mu1 != mu2, condim 3/4/6
     if rng.random() < 0.6 and sp.geoms and 'name="floor"' in xml:
       prs = ""
@@ -60,7 +66,6 @@ def _oracle(ctx, ncases):
     state = d.efc.state.numpy()
     floss = d.efc.frictionloss.numpy()
     typ = d.efc.type.numpy()
-    J = d.efc.J.numpy()
     qfc = d.qfrc_constraint.numpy()
     for w in range(nworld):
       n = int(nefc[w])
@@ -81,14 +86,11 @@ def _oracle(ctx, ncases):
       sat = state[w, :n] == 0
       if (np.abs(f[sat]) > tol).any():
         findings.append({"what": "satisfied row carries force", "site": "solver._eval_constraint", "trigger_id": "sat-force", "xml": xml})
-      if cone == "elliptic":
-        cf = np.zeros((d.naconmax if hasattr(d, "naconmax") else 0, 6))
-      # qfrc_constraint = J^T f  (dense J only)
-      if not m.is_sparse and J.ndim == 3:
-        jt = J[w, :n, : mjm.nv].astype(np.float64).T @ f
-        if not np.allclose(jt, qfc[w], rtol=2e-4, atol=2e-4 * (1 + np.abs(jt).max())):
-          findings.append({"what": "qfrc_constraint != J^T efc_force", "site": "solver._qfrc_constraint", "trigger_id": "jtf", "xml": xml,
-                           "max_abs_diff": float(np.abs(jt - qfc[w]).max())})
+      # qfrc_constraint = J^T f  (dense and sparse storage of J)
+      jt = _dense_J(m, d, w, n, mjm.nv).T @ f
+      if not np.allclose(jt, qfc[w], rtol=2e-4, atol=2e-4 * (1 + np.abs(jt).max())):
+        findings.append({"what": "qfrc_constraint != J^T efc_force", "site": "solver._qfrc_constraint", "trigger_id": "jtf", "xml": xml,
+                         "max_abs_diff": float(np.abs(jt - qfc[w]).max())})
     if cone == "elliptic" and d.nacon.numpy()[0] > 0:
       # cone membership of decoded contact forces via the public API
       try:
@@ -111,6 +113,182 @@ def _oracle(ctx, ncases):
     if c < 2:
       samples.append({"cone": cone, "solver": solver, "nefc": nefc.tolist(), "ne": ne.tolist(), "nf": nf.tolist(), "nl": nl.tolist()})
   return evals, nontrivial, samples, findings
+
+
+def _dense_J(m, d, w, n, nv):
+  """row-major dense copy of world w's constraint Jacobian (dense or sparse storage)"""
+  if not m.is_sparse:
+    return d.efc.J.numpy()[w, :n, :nv].astype(np.float64)
+  J = np.zeros((n, nv))
+  rn, ra = d.efc.J_rownnz.numpy()[w], d.efc.J_rowadr.numpy()[w]
+  ci, Jv = d.efc.J_colind.numpy()[w].reshape(-1), d.efc.J.numpy()[w].reshape(-1)
+  for r in range(n):
+    a, k = int(ra[r]), int(rn[r])
+    J[r, ci[a:a + k]] = Jv[a:a + k]
+  return J
+
+
+# (solver, cone, jacobian, iterations, ls_iterations) taken in rotation by the budget-limited cases; Newton+pyramidal is the only
+# configuration with tracked state changes / incremental Hessian / the stable-state fast path, so it comes first and most often
+BUDGET_COMBOS = [("Newton", "pyramidal", "dense", 1, 50), ("Newton", "pyramidal", "sparse", 1, 50), ("Newton", "pyramidal", "dense", 2, 4), ("CG", "pyramidal", "sparse", 1, 50),
+                 ("Newton", "elliptic", "dense", 1, 50), ("Newton", "pyramidal", "sparse", 3, 50), ("CG", "elliptic", "dense", 2, 4), ("Newton", "pyramidal", "dense", 100, 50),
+                 ("Newton", "pyramidal", "sparse", 2, 50), ("CG", "pyramidal", "dense", 3, 4), ("Newton", "elliptic", "sparse", 2, 4), ("Newton", "pyramidal", "dense", 4, 50)]
+LAWTOL = 5e-5  # relative float32 drift allowed on jaref (Jaref += alpha*jv per iteration); 2e-6 is already silent over 4000 solves of the unchanged tree
+S_SAT, S_QUAD, S_LNEG, S_LPOS, S_CONE = 0, 1, 2, 3, 4
+T_EQ, T_FDOF, T_FTEN, T_LJNT, T_LTEN, T_CFL, T_CPYR, T_CELL = range(8)
+
+
+def _chain_xml(rng, c, combo):
+  """serial arm of 2..3 hinges with joint friction loss; in rotation: a fixed tendon with friction loss, a joint limit, a floor under the tip"""
+  solver, cone, jac, its, ls = combo
+  n = 2 + int(c % 3 == 2)
+  grav = "0 0 -9.81" if c % 2 else "0 0 0"
+  floss = rng.uniform(0.2, 1.5, size=n)
+  if n == 3 and rng.random() < 0.5:
+    floss[int(rng.integers(0, n))] = 0.0
+  feats = {"tendon": c % 2 == 1, "limit": c % 3 == 2, "floor": c % 4 == 3}
+  body, close = "", ""
+  pos = "0 0 0.3"
+  for i in range(n):
+    L = rng.uniform(0.2, 0.45)
+    lim = ' limited="true" range="-0.3 0.3"' if feats["limit"] and i == n - 1 else ""
+    body += (f'<body pos="{pos}"><joint name="j{i}" type="hinge" axis="0 1 0" frictionloss="{floss[i]:.3f}" damping="{rng.uniform(0.0, 0.3):.3f}"{lim}/>'
+             f'<geom name="g{i}" type="capsule" size="0.03" fromto="0 0 0 {L:.3f} 0 0" mass="{rng.uniform(0.3, 1.5):.3f}"/>')
+    close += "</body>"
+    pos = f"{L:.3f} 0 0"
+  extra = ""
+  if feats["tendon"]:
+    extra += (f'<tendon><fixed name="t" frictionloss="{rng.uniform(0.2, 1.0):.3f}"><joint joint="j0" coef="{rng.uniform(0.5, 1.5):.3f}"/>'
+              f'<joint joint="j{n - 1}" coef="{-rng.uniform(0.5, 1.5):.3f}"/></fixed></tendon>')
+  floor = '<geom name="floor" type="plane" size="3 3 .1" pos="0 0 0.275" condim="3"/>' if feats["floor"] else ""
+  xml = (f'<mujoco><option timestep="0.002" gravity="{grav}" solver="{solver}" cone="{cone}" jacobian="{jac}" iterations="{its}" ls_iterations="{ls}" tolerance="1e-10"/>'
+         f'<worldbody>{floor}{body}{close}</worldbody>{extra}</mujoco>')
+  return xml, n, floss, feats
+
+
+def _row_force_law(typ, jaref, D, floss):
+  """NumPy transcription of the scalar row law (MuJoCo's mj_constraintUpdate) for all rows but elliptic contact rows (NaN there)"""
+  f = np.full(len(jaref), np.nan)
+  for r in range(len(jaref)):
+    t = int(typ[r])
+    if t == T_EQ:
+      f[r] = -D[r] * jaref[r]
+    elif t in (T_FDOF, T_FTEN):
+      f[r] = float(np.clip(-D[r] * jaref[r], -floss[r], floss[r]))
+    elif t != T_CELL:
+      f[r] = -D[r] * jaref[r] if jaref[r] < 0 else 0.0
+  return f
+
+
+def _abs_inertia(mjm, mjd, qpos):
+  """|M(qpos)| from MuJoCo C (only used as a magnitude for round-off tolerances)"""
+  import mujoco
+  mjd.qpos[:] = qpos
+  mujoco.mj_forward(mjm, mjd)
+  M = np.zeros((mjm.nv, mjm.nv))
+  mujoco.mj_fullM(mjm, mjd, M)
+  return np.abs(M)
+
+
+def _check_solve_outputs(acc, m, d, nv, cone, tag, replay, prev_state, mjm, mjd, qpos_solved):
+  """the C24 invariants on whatever the solver published, converged or not (J^T f, bounds, satisfied rows, row law at the published qacc)"""
+  nefc, ne, nf, nl = d.nefc.numpy(), d.ne.numpy(), d.nf.numpy(), d.nl.numpy()
+  force, state, floss, typ = d.efc.force.numpy(), d.efc.state.numpy(), d.efc.frictionloss.numpy(), d.efc.type.numpy()
+  aref, D, qacc, qfc, niter, qsm = d.efc.aref.numpy(), d.efc.D.numpy(), d.qacc.numpy(), d.qfrc_constraint.numpy(), d.solver_niter.numpy(), d.qfrc_smooth.numpy()
+  new_state = []
+  for w in range(d.nworld):
+    n = int(nefc[w])
+    new_state.append(state[w, :n].copy())
+    if n == 0 or n > force.shape[1] or not np.isfinite(qacc[w]).all():
+      acc.hit("budget:skipped-world")
+      continue
+    acc.evals += 1
+    f = force[w, :n].astype(np.float64)
+    st, ty = state[w, :n], typ[w, :n]
+    J = _dense_J(m, d, w, n, nv)
+    fscale = 1 + np.abs(f).max()
+    tol = 1e-5 * fscale
+    fr = slice(int(ne[w]), int(ne[w] + nf[w]))
+    lin = (st[fr] == S_LNEG) | (st[fr] == S_LPOS)
+    acc.hit(f"budget:floss-rows-linear={'some' if lin.any() else 'none'}")
+    if prev_state is not None and len(prev_state[w]) == n:
+      ps = prev_state[w][fr]
+      if (((ps == S_LNEG) & (st[fr] == S_LPOS)) | ((ps == S_LPOS) & (st[fr] == S_LNEG))).any():
+        acc.hit("budget:floss-row-switched-linear-side-since-previous-solve")
+    acc.hit(f"budget:niter={'limit' if niter[w] >= m.opt.iterations else 'below-limit'}")
+    if (np.abs(f[fr]) > floss[w, fr] + tol).any():
+      acc.find(f"friction-loss force exceeds frictionloss ({tag})", "solver._eval_constraint", "floss", **replay)
+    if (f[int(ne[w] + nf[w]):int(ne[w] + nf[w] + nl[w])] < -tol).any():
+      acc.find(f"negative limit force ({tag})", "solver._eval_constraint", "limit-neg", **replay)
+    if cone == "pyramidal" and (f[int(ne[w] + nf[w] + nl[w]):] < -tol).any():
+      acc.find(f"negative pyramidal edge force ({tag})", "solver._eval_constraint", "pyr-neg", **replay)
+    if (np.abs(f[st == S_SAT]) > 0).any():
+      acc.find(f"satisfied row carries force ({tag})", "solver._eval_constraint", "sat-force", **replay)
+    # generalized force: identity in the published arrays; float32 sum over n rows
+    # on the Newton/pyramidal path the published value is Ma - qfrc_smooth - grad_scale*grad: cancellation at the magnitude of |M||qacc| + |qfrc_smooth|
+    jt = J.T @ f
+    cancel = (_abs_inertia(mjm, mjd, qpos_solved[w]) @ np.abs(qacc[w, :nv]) + np.abs(qsm[w, :nv])).max()
+    jtol = 2e-4 * (1 + (np.abs(J).T @ np.abs(f)).max()) + 3e-5 * cancel
+    if np.abs(jt - qfc[w]).max() > jtol:
+      acc.find(f"qfrc_constraint != J^T efc_force after a solve that stopped at niter={int(niter[w])} of {int(m.opt.iterations)} ({tag}; max |d| {np.abs(jt - qfc[w]).max():.3g}, "
+               f"tol {jtol:.2g})", "solver._qfrc_constraint", "jtf", world=w, **replay)
+    # row law at the published qacc (jaref accumulates alpha*jv in float32 over the iterations; the law is continuous)
+    jaref = J @ qacc[w, :nv].astype(np.float64) - aref[w, :n]
+    ref = _row_force_law(ty, jaref, D[w, :n].astype(np.float64), floss[w, :n].astype(np.float64))
+    ok = np.isfinite(ref)
+    acc.hit(f"budget:row-law-compared={'yes' if ok.any() else 'no'}")
+    ltol = LAWTOL * D[w, :n] * (np.abs(J) @ np.abs(qacc[w, :nv]) + np.abs(aref[w, :n])) + tol
+    if ok.any() and (np.abs(ref - f)[ok] > ltol[ok]).any():
+      r = int(np.argmax(np.where(ok, np.abs(ref - f) - ltol, -np.inf)))
+      acc.find(f"efc_force differs from the row law evaluated at the published qacc ({tag}; row {r} type {int(ty[r])} state {int(st[r])}: {f[r]:.6g} vs {ref[r]:.6g}, tol {ltol[r]:.2g})",
+               "solver._update_constraint_efc", "force-vs-qacc", world=w, **replay)
+  return new_state
+
+
+def _budget_cases(ctx, acc, ncases, rec=None):
+  """solves that stop on the iteration limit (1..4 iterations, short and long line searches) from a warm start that is far from
+  the new solution: an arm with joint/tendon friction loss is driven for a few steps, then the drive is reversed / rescaled per
+  world and forward() is called. A friction-loss row then travels from one linear regime to the other within one iteration, and
+  the solve ends wherever the budget ends. Every published solve (each step and the final forward) is checked."""
+  import warp as wp
+  import mujoco_warp as mjw
+  from harness import mjw_util
+  rng = np.random.default_rng(ctx.seed * 1000 + 242424)
+  for c in range(ncases):
+    combo = BUDGET_COMBOS[c % len(BUDGET_COMBOS)]
+    xml, n, fl, feats = _chain_xml(rng, c, combo)
+    mjm, mjd = mjw_util.load(xml)
+    nv = mjm.nv
+    nworld = 3
+    tq = rng.uniform(15, 40, size=nv) * np.maximum(fl, 0.3) * rng.choice([-1.0, 1.0], size=nv)
+    scale2 = rng.uniform(-1.5, 1.5)
+    npre = int(rng.integers(1, 4))
+    replay = {"xml": xml, "torque": tq.tolist(), "world_scales_after": [-1.0, 1.0, float(scale2)], "npre": npre}
+    acc.hit(f"budget:{combo[0]}/{combo[1]}/{combo[2]}/it={combo[3]}/ls={combo[4]}")
+    for k, v in feats.items():
+      if v:
+        acc.hit(f"budget:feature-{k}")
+    try:
+      # launches are recorded (thorough tier) on the two Newton/pyramidal one-iteration cases, with a small njmax: the allocating kernel is replayed serially (<= 96 tasks)
+      icpt = rec is not None and c < 2
+      m, d = mjw_util.put(mjm, mjd, nworld=nworld, **({"njmax": 16} if icpt else {}))
+      m.opt.warn_overflow = False  # stopping on the limit is the point here; keeps the console quiet
+      d.qfrc_applied = wp.array(np.tile(tq, (nworld, 1)), dtype=float)
+      prev = None
+      for s in range(npre):
+        qp = d.qpos.numpy().copy()  # step() publishes the solve at the configuration BEFORE integration
+        mjw.step(m, d)
+        prev = _check_solve_outputs(acc, m, d, nv, combo[1], f"step {s} of the drive", replay, prev, mjm, mjd, qp)
+      d.qfrc_applied = wp.array(np.stack([-tq, tq, scale2 * tq]), dtype=float)
+      if icpt:
+        with rec:
+          mjw.forward(m, d)
+      else:
+        mjw.forward(m, d)
+      _check_solve_outputs(acc, m, d, nv, combo[1], "forward after the drive was reversed (world 0) / kept (1) / rescaled (2)", replay, prev, mjm, mjd, d.qpos.numpy())
+    except Exception as e:
+      acc.find(f"forward/step raised {type(e).__name__}: {e}", "forward", "crash", **replay)
+    acc.distinct.add(("budget", c, combo))
 
 
 PUSH_XML = """<mujoco><option cone="elliptic" solver="{solver}" jacobian="{jac}" iterations="100" tolerance="1e-10"/>
@@ -169,22 +347,45 @@ def _push_cases(ctx, ncases):
 
 def correspondence(ctx):
   from harness.corr import func_corr
-  names = [f for f in GEN_FUNCS if f != "solver._eval_constraint"] + ["solver._eval_frictionloss_pt_one", "solver._eval_pt", "solver._eval_cost"]
+  from harness.props.common import Acc
+  names = [f for f in GEN_FUNCS if f != "solver._eval_constraint" and f not in KERNELS] + ["solver._eval_frictionloss_pt_one", "solver._eval_pt", "solver._eval_cost"]
   fc = func_corr.run(names, ncases=256 if ctx.thorough else 64, seed=ctx.seed)
   fc2 = func_corr.run(["solver._eval_constraint"], ncases=512 if ctx.thorough else 128, seed=ctx.seed + 1, int_ranges={"solver._eval_constraint": (0, 1)})
   evals, nontriv, samples, findings = _oracle(ctx, 24 if ctx.thorough else 6)
   pe, pf = _push_cases(ctx, 40 if ctx.thorough else 12)
-  evals, nontriv, findings = evals + pe, nontriv + pe, findings + pf
+  acc = Acc()
+  kc = None
+  if ctx.thorough:
+    from harness.corr import kernel_corr
+    rec = kernel_corr.Recorder(wanted=KERNELS, max_records_per_kernel=4)
+    _budget_cases(ctx, acc, 48, rec)
+    kc = kernel_corr.check_records(rec, np.random.default_rng(ctx.seed), max_tids=64, replay_allocs=True)
+  else:
+    _budget_cases(ctx, acc, 12)
+  evals, nontriv, findings = evals + pe + acc.evals, nontriv + pe + acc.evals, findings + pf + acc.findings
   fns = dict(fc["functions"]); fns.update(fc2["functions"])
   return {"evaluations": fc["evaluations"] + fc2["evaluations"] + evals, "distinct_nontrivial": fc["distinct_outputs"] + fc2["distinct_outputs"] + nontriv,
-          "rule": "func-level: random float32 argument tuples incl. 0/+-1/MJ_MINVAL neighbours, all flag combinations; distinct = distinct (function, output); "
-                  "forward-level: random trees dropped on a floor with friction loss and joint limits, both cones/solvers, explicit floor pairs with anisotropic friction; plus bodies resting on an "
-                  "anisotropic-friction pair and pushed sideways around the slip threshold (cone membership with the per-axis coefficients, qacc vs mj_forward); nontrivial = worlds with nefc>0",
-          "samples": [fc["sample"]] + samples, "func_level": fns, "disagreements": fc["disagreements"] + fc2["disagreements"], "findings": findings}
+          "rule": RULE, "samples": [fc["sample"]] + samples, "func_level": fns, "disagreements": fc["disagreements"] + fc2["disagreements"] + (kc["disagreements"] if kc else []), "findings": findings, "hits": acc.hist,
+          "kernel_interception": ({k: v for k, v in kc.items() if k != "disagreements"} if kc else "thorough tier only")}
+
+
+RULE = ("func-level: random float32 argument tuples incl. 0/+-1/MJ_MINVAL neighbours, all flag combinations; distinct = distinct (function, output); "
+        "forward-level: random trees dropped on a floor with friction loss and joint limits, both cones/solvers, dense/sparse/auto Jacobian in rotation, explicit floor pairs with "
+        "anisotropic friction; plus bodies resting on an anisotropic-friction pair and pushed sideways around the slip threshold (cone membership with the per-axis coefficients, qacc vs "
+        "mj_forward); plus budget-limited warm-started solves: 2..3-hinge arms with joint friction loss (in rotation: tendon friction loss, joint limit, floor contact), 3 worlds, driven for "
+        "1..3 steps and then the drive reversed / kept / rescaled per world, (solver, cone, jacobian, iterations 1/2/3/4/100, ls_iterations 4/50) in fixed rotation with Newton+pyramidal "
+        "(tracked state changes, incremental Hessian, stable-state fast path) first; after EVERY published solve (each step, the final forward), converged or stopped on the limit: "
+        "qfrc_constraint = J^T efc_force (J densified from either storage), friction-loss bound, non-negative limit/pyramidal forces, satisfied rows exactly zero, and efc_force = row law "
+        "(NumPy transcription) at jaref = J qacc - aref of the published qacc; hits record per-combination counts, friction rows in a linear regime, rows that switched linear side between "
+        "consecutive solves, and stops on/below the limit; nontrivial = worlds with nefc>0")
 
 
 def search(ctx, breaks):
+  from harness.props.common import Acc
   evals, nontriv, samples, findings = _oracle(ctx, 60)
   pe, pf = _push_cases(ctx, 60)
-  evals, findings = evals + pe, findings + pf
-  return {"oracle": "admissibility inequalities and J^T f on real forward() outputs", "cases": evals, "outcome": "witness" if findings else "none", "findings": findings}
+  acc = Acc()
+  _budget_cases(ctx, acc, 96)
+  evals, findings = evals + pe + acc.evals, findings + pf + acc.findings
+  return {"oracle": "admissibility inequalities and J^T f on real forward() outputs, incl. solves stopped on the iteration limit from a far warm start", "cases": evals, "hits": acc.hist,
+          "outcome": "witness" if findings else "none", "findings": findings}
